@@ -535,6 +535,39 @@ fn c09_post(plan: &mut LPlan, seed: u64) {
         }
         plan.actions.sort_by_key(|a| a.t);
     }
+    {
+        use crate::lsim::plan::{Action, TimedAction, hex};
+        // the SRT endpoint restarts on a new source port, once or twice, inside the traffic
+        if r.chance(0.4) {
+            for k in 0..r.range(1, 2) {
+                let t = r.range(plan.horizon_ms / 5, plan.horizon_ms.max(5) * 4 / 5);
+                plan.actions.push(TimedAction { t, kind: Action::ClientRebind { port: 40_001 + k as u16 } });
+            }
+        }
+        // a link falls silent for just over the liveness timeout and then hears one datagram
+        // before housekeeping gets to it: nothing else reaches that link meanwhile
+        if r.chance(0.4) {
+            let l = r.below(plan.n_links as u64) as usize;
+            let timeout = plan.cfg.conn_timeout_ms;
+            let t0 = r.range(3_000, 5_000);
+            let quiet_to = t0 + timeout + 1_100;
+            plan.actions.retain(|a| !(matches!(&a.kind, Action::Inject { link, .. } if *link == l) && a.t + 25 >= t0 && a.t <= quiet_to));
+            plan.actions.push(TimedAction { t: t0, kind: Action::Blackhole { link: l, up: false, down: true, on: true } });
+            let mut k = 0u64;
+            while k < 1_000 {
+                let ty: u16 = *r.pick(&[0x8002u16, 0x8003, 0x9000, 0x9100, 0x8006, 0x0001, 0x1234]);
+                let mut b = vec![0u8; r.range(20, 60) as usize];
+                r.fill(&mut b);
+                b[0] = (ty >> 8) as u8;
+                b[1] = ty as u8;
+                plan.actions.push(TimedAction { t: t0 + timeout + k + r.range(1, 40), kind: Action::Inject { link: l, hex: hex(&b), delay: 0 } });
+                k += r.range(90, 260);
+            }
+            plan.actions.push(TimedAction { t: quiet_to + 400, kind: Action::Blackhole { link: l, up: false, down: true, on: false } });
+            plan.horizon_ms = plan.horizon_ms.max(quiet_to + 2_500);
+        }
+        plan.actions.sort_by_key(|a| a.t);
+    }
     if r.chance(0.25) {
         // a run in which the client never speaks: nothing may reach the client socket
         plan.actions.retain(|a| {
@@ -887,6 +920,46 @@ fn c08_post(plan: &mut LPlan, seed: u64) {
             a.t = r.range(3_000, cut.max(3_001));
         }
     }
+    // the receiver forgets the group while handshake replies (REG2) are lost on some links; one
+    // link's last datagram is a second or so older than the others', so that retry phases differ
+    if r.chance(0.35) {
+        let t1 = r.range(8_000, 14_000);
+        let stagger = r.below(plan.n_links as u64) as usize;
+        plan.actions.push(TimedAction { t: t1 - r.range(600, 1_900), kind: Action::Blackhole { link: stagger, up: true, down: true, on: true } });
+        plan.actions.push(TimedAction { t: t1 + r.range(2_000, 9_000), kind: Action::Blackhole { link: stagger, up: true, down: true, on: false } });
+        plan.actions.push(TimedAction { t: t1, kind: Action::ReceiverRestart });
+        match r.below(4) {
+            0 => {
+                // for good on some links (known finding: they keep taking the one REG1 slot)
+                for l in 0..plan.n_links {
+                    if r.chance(0.5) {
+                        plan.actions.push(TimedAction { t: t1 - 1, kind: Action::DropReg2 { link: l, on: true } });
+                    }
+                }
+            }
+            1 | 2 => {
+                // for a few seconds
+                for l in 0..plan.n_links {
+                    if r.chance(0.6) {
+                        plan.actions.push(TimedAction { t: t1 - 1, kind: Action::DropReg2 { link: l, on: true } });
+                        plan.actions.push(TimedAction { t: t1 + r.range(2_000, 12_000), kind: Action::DropReg2 { link: l, on: false } });
+                    }
+                }
+            }
+            _ => {
+                // the uplink that answers the first REG_NGP never gets its REG2 and then dies for good
+                for l in 0..plan.n_links {
+                    if l != stagger && r.chance(0.6) {
+                        let dead_at = t1 + r.range(300, 3_500);
+                        plan.actions.push(TimedAction { t: t1 - 1, kind: Action::DropReg2 { link: l, on: true } });
+                        plan.actions.push(TimedAction { t: dead_at, kind: Action::Blackhole { link: l, up: true, down: true, on: true } });
+                        plan.actions.push(TimedAction { t: dead_at, kind: Action::DropReg2 { link: l, on: false } });
+                    }
+                }
+            }
+        }
+        plan.horizon_ms = plan.horizon_ms.max(t1 + 70_000);
+    }
     // long bind-failure episodes in the long runs
     if plan.horizon_ms >= 300_000 {
         let link = r.below(plan.n_links as u64) as usize;
@@ -1092,6 +1165,22 @@ impl Check for WCheck {
                 t += r.range(2500, 5000);
             }
             plan.horizon_ms = plan.horizon_ms.max(t + 3000);
+            if plan.n_links >= 2 && r.chance(0.3) {
+                // one listed address cannot be bound at start-up (interface not up yet); the fault
+                // clears and the operator sends SIGHUP with the file unchanged - the retry gesture
+                plan.actions.retain(|a| !matches!(a.kind, Action::Reload { .. }));
+                let k = r.below(plan.n_links as u64) as usize;
+                plan.actions.push(TimedAction { t: 0, kind: Action::BindFail { link: k, on: true } });
+                let t1 = r.range(1_500, 4_000);
+                plan.actions.push(TimedAction { t: t1, kind: Action::BindFail { link: k, on: false } });
+                let same: String = (0..plan.n_links).map(|l| format!("{}\n", crate::lsim::path_ip(l))).collect();
+                let mut t2 = t1 + r.range(500, 3_000);
+                for _ in 0..r.range(1, 2) {
+                    plan.actions.push(TimedAction { t: t2, kind: Action::Reload { text: Some(same.clone()) } });
+                    t2 += r.range(2_500, 4_000);
+                }
+                plan.horizon_ms = plan.horizon_ms.max(t2 + 2_000);
+            }
             if r.chance(0.25) {
                 // total outage: every path dead for longer than the connection time-out plus the
                 // all-failed grace (housekeeping reports failure on every pass), then a reload
